@@ -26,7 +26,8 @@ RULE = (
     "of the zone in 2015-2035 +-1 day, or a drawn day); ALL 1440 minutes of that UTC day are evaluated, each at a "
     "drawn second/microsecond. Oracle: an independent crontab(5) matcher applied to the local time computed with "
     "zoneinfo / integer-microsecond arithmetic; get_task_delay must return 0 iff it matches, else None; changing only "
-    "seconds/microseconds never changes the answer (metamorphic). Non-trivial: the instant is within +-1 day of a DST "
+    "seconds/microseconds never changes the answer (metamorphic). (3) 'loop_runs': the real run_scheduler_loop on the virtual-time loop with sources that take 0-61 s to answer a listing, started up to 0.1 s before a minute boundary; "
+    "the cron schedules sent when a listing completes must be exactly the listed ones matching the minute of THAT instant (non-trivial there: the listing crossed a minute boundary). Non-trivial: the instant is within +-1 day of a DST "
     "transition of the zone, or the offset is not a whole number of hours, or the local calendar day differs from the "
     "UTC day; distinct = canonical JSON of the case."
 )
@@ -216,7 +217,10 @@ def _eval(task: ScheduledTask, us: int) -> Any:
 
     clock.FakeDT.cur = clock.from_us(us)
     clock.FakeDT.source = None
-    return R.get_task_delay(task)
+    try:
+        return R.get_task_delay(task)
+    except Exception as exc:  # noqa: BLE001 - a well-formed expression / offset must get an answer
+        return f"raised {type(exc).__name__}: {exc}"
 
 
 def _tzdb_agree(us: int, off: Optional[Dict[str, Any]], loc: dtm.datetime) -> bool:
@@ -307,6 +311,82 @@ def run_case(case: Dict[str, Any]) -> Outcome:
         return out
     finally:
         clock.uninstall()
+
+
+# ---------------------------------------------------------------------------------------------------------------
+# the same rule observed through the real scheduler loop: "the current minute" is the minute in which the schedules are
+# looked at, also when the listing of the sources took a while and crossed a minute boundary
+
+
+def loop_runs() -> Any:
+    MIN = 60 * 10**6
+
+    def fin(d: Dict[str, Any]) -> Dict[str, Any]:
+        base = d["base"] // MIN * MIN + int(d["bsec"] * 10**6)
+        sources = []
+        for si, (lat, ents) in enumerate(d["sources"]):
+            es = []
+            for j, (mk, rest, off) in enumerate(ents):
+                loc = local_of(base, off)
+                mins = {"cur": str(loc.minute), "next": str((loc.minute + 1) % 60), "next2": str((loc.minute + 2) % 60),
+                        "any": "*", "even": "*/2", "pair": f"{loc.minute},{(loc.minute + 1) % 60}"}[mk]
+                es.append({"id": f"c{si}_{j}", "cron": mins + " " + rest, "offset": off, "add_at": 0, "remove_at": None})
+            sources.append({"kind": "scripted", "entries": es, "fail_polls": [], "list_latency": lat})
+        return {"loop": True, "base_us": base, "horizon_min": d["h"], "sources": sources, "latencies": [0.0], "kick_fail": []}
+
+    ent = st.tuples(st.sampled_from(["cur", "next", "next", "next2", "any", "even", "pair"]), st.sampled_from(["* * * *", "* * * *", "*/1 * * *"]),
+                    st.one_of(st.none(), st.none(), st.fixed_dictionaries({"td_us": st.sampled_from([3600 * 10**6, -1800 * 10**6, 90 * 10**6])}),
+                              st.fixed_dictionaries({"zone": st.sampled_from(["Asia/Kolkata", "Asia/Kathmandu", "Europe/Berlin"])})))
+    return st.fixed_dictionaries({
+        "base": st.integers(clock.to_us(dtm.datetime(2024, 1, 1, tzinfo=clock.UTC)), clock.to_us(dtm.datetime(2026, 1, 1, tzinfo=clock.UTC))),
+        "bsec": st.sampled_from([0.0, 30.0, 55.0, 57.5, 59.0, 59.9]), "h": st.integers(2, 3),
+        "sources": st.lists(st.tuples(st.sampled_from([0.0, 0.0, 0.4, 3.0, 5.0, 61.0]), st.lists(ent, min_size=1, max_size=3)), min_size=1, max_size=2),
+    }).map(fin)
+
+
+def run_loop_case(case: Dict[str, Any]) -> Outcome:
+    from vt.harness import sched
+
+    MIN = 60 * 10**6
+    out = Outcome()
+    out.clauses_checked = ["C13.a"]
+    res = sched.run_sched(case)
+    if res["crashed"] or res["deadlock"]:
+        out.add("C13.a", f"the scheduler loop stopped: {res['loop_exc']}")
+        return out
+    polls = list(res["polls"].values())
+    n_pass = min(len(p) for p in polls)
+    ent = {e["id"]: e for s in case["sources"] for e in s["entries"]}
+    crossed = False
+    for j in range(n_pass):
+        if any("ret" not in p[j] for p in polls):
+            continue        # listing still in flight when the run ended
+        start = min(p[j]["t"] for p in polls)
+        ev = max(p[j]["ret"] for p in polls)
+        crossed = crossed or (start // MIN != ev // MIN)
+        listed = [i for p in polls for i in p[j]["listed"]]
+        want = sorted(i for i in listed if cron.matches(ent[i]["cron"], local_of(ev, ent[i]["offset"])))
+        got = sorted(k["tag"] for k in res["kicks"] if abs(k["t"] - ev) <= 2 and k["tag"] in ent)
+        if want != got:
+            out.add("C13.a", f"pass {j}: listing started {clock.from_us(start).time().isoformat()} and completed {clock.from_us(ev).time().isoformat()} UTC; sent at that instant "
+                             f"{[(i, ent[i]['cron'], ent[i]['offset']) for i in got]}, but the expressions matching that minute are {[(i, ent[i]['cron'], ent[i]['offset']) for i in want]}")
+            break
+    out.nontrivial = crossed
+    out.classes = ["loop"] + (["listing_crossed_minute_boundary"] if crossed else []) + (["slow_source"] if any(s["list_latency"] for s in case["sources"]) else [])
+    out.trace = {"kicks": [[k["tag"], k["t"] - case["base_us"]] for k in res["kicks"]][:12]}
+    return out
+
+
+_base_parts, _base_run = parts, run_case
+
+
+def parts(tier: str) -> List[Part]:  # type: ignore[no-redef]
+    n = 2500 if tier == "thorough" else 150
+    return _base_parts(tier) + [Part("loop_runs", "given", shards=4, examples=n, strategy=loop_runs, soft_deadline_s=1500 if tier == "thorough" else 100)]
+
+
+def run_case(case: Dict[str, Any]) -> Outcome:  # type: ignore[no-redef]
+    return run_loop_case(case) if case.get("loop") else _base_run(case)
 
 
 SELFTEST_CASES = [{"expr": "*/5 * * * *", "offset": {"zone": "Asia/Kathmandu"}, "t_us": Y0 + 12345678901, "alt": [3, 5]}]
